@@ -52,6 +52,7 @@ type VC struct {
 	uncontracted map[string]bool
 	wantClass map[string]*KnownFinding
 	prescanSet map[string]bool
+	locksAtEntry bool // the contract is entered with some lock held (requires held(..)): no all-free assumption
 	sliceMu  sync.Mutex
 	slice    *sliceCache
 }
